@@ -47,6 +47,9 @@ type parked struct {
 	// liveness accounting: true when the call is one the "responsive world"
 	// promise covers (everything except client waits).
 	world bool
+	// gates only: the goroutine stays preempted until the scheduler has taken this many
+	// further steps (or nothing else can run)
+	readyStep int
 }
 
 // Event is one externally visible event at a seam.
@@ -108,11 +111,12 @@ type Violation struct {
 }
 
 type World struct {
-	wake  chan struct{} // a call has just parked (ends the scheduler's sleep)
-	gates *gateState
-	mu    sync.Mutex
-	cfg   *Config
-	rng   *rand.Rand
+	gateDelay int           // set by the gate hook right before it parks: scheduler steps the preemption lasts
+	wake      chan struct{} // a call has just parked (ends the scheduler's sleep)
+	gates     *gateState
+	mu        sync.Mutex
+	cfg       *Config
+	rng       *rand.Rand
 
 	parked   map[string]*parked
 	frozen   []*parked // calls of dead incarnations, never released (until poison)
@@ -307,6 +311,9 @@ func (w *World) park(ctx context.Context, kind, ent string, inc int, enabled fun
 		w.mu.Unlock()
 		return decision{}
 	}
+	if kind == "gate" {
+		p.readyStep = w.step + w.gateDelay
+	}
 	if w.or != nil && inc == w.inc {
 		w.mu.Unlock()
 		w.or.onPark(w, kind)
@@ -387,11 +394,25 @@ func (w *World) enabledList() []enabledItem {
 	sort.Slice(items, func(i, j int) bool { return items[i].key < items[j].key })
 	// evaluate predicates outside the sort, still under lock (predicates only read sim state)
 	out := items[:0]
-	for _, it := range items {
+	var waiting *enabledItem
+	for i, it := range items {
 		if it.p.enabled != nil && !it.p.enabled() {
 			continue
 		}
+		if it.p.kind == "gate" && it.p.readyStep > w.step {
+			// still preempted; remember the one that comes back first
+			if waiting == nil || it.p.readyStep < waiting.p.readyStep {
+				waiting = &items[i]
+			}
+			continue
+		}
 		out = append(out, it)
+	}
+	if len(out) == 0 && waiting != nil {
+		// nothing else can run: the preempted goroutine is scheduled again now (time does not
+		// pass while a goroutine is merely preempted)
+		w0 := *waiting
+		out = append(out, w0)
 	}
 	return out
 }
